@@ -10,6 +10,7 @@ import (
 	"github.com/lni/dragonboat/v4/internal/logdb"
 	"github.com/lni/dragonboat/v4/internal/raft"
 	"github.com/lni/dragonboat/v4/internal/tan"
+	"github.com/lni/dragonboat/v4/raftio"
 	pb "github.com/lni/dragonboat/v4/raftpb"
 )
 
@@ -24,3 +25,21 @@ func DefaultLogDBFactory() config.LogDBFactory { return logdb.NewDefaultFactory(
 
 // TanLogDBFactory is the Tan log store factory.
 func TanLogDBFactory() config.LogDBFactory { return tan.Factory }
+
+// ---- a real raft.Peer over a real LogReader, for single-replica scenarios ----
+
+type (
+	Peer        = raft.Peer
+	PeerAddress = raft.PeerAddress
+	LogReader   = logdb.LogReader
+)
+
+// NewLogReader creates the real LogReader over db.
+func NewLogReader(shardID, replicaID uint64, db raftio.ILogDB) *LogReader {
+	return logdb.NewLogReader(shardID, replicaID, db)
+}
+
+// Launch starts a raft peer over lr (raft.Launch without an event listener).
+func Launch(c config.Config, lr *LogReader, addresses []PeerAddress, initial, newNode bool) Peer {
+	return raft.Launch(c, lr, nil, addresses, initial, newNode)
+}
